@@ -11,6 +11,9 @@ import (
 
 // c04Field builds one well-formed field of a symbolic wire type (all 14) with symbolic content,
 // nested up to depth levels.
+// c04MaxLen bounds inner lengths (2 at depth <= 1; the depth-2 harness uses 1)
+var c04MaxLen = 2
+
 func c04Field(tag int, depth int) []byte {
 	var ty byte
 	if depth == 0 {
@@ -30,21 +33,21 @@ func c04Field(tag int, depth int) []byte {
 	case tyLong, tyDouble:
 		out = append(out, vapi.Bytes("xp", 8)...)
 	case tyStr1:
-		n := vapi.Len("xslen", 2)
+		n := vapi.Len("xslen", c04MaxLen)
 		out = append(out, byte(n))
 		out = append(out, vapi.Bytes("xs", n)...)
 	case tyStr4:
-		n := vapi.Len("xslen", 2)
+		n := vapi.Len("xslen", c04MaxLen)
 		out = append(out, 0, 0, 0, byte(n))
 		out = append(out, vapi.Bytes("xs", n)...)
 	case tyZero:
 	case tySimple:
-		n := vapi.Len("xblen", 2)
+		n := vapi.Len("xblen", c04MaxLen)
 		out = append(out, 0x00)             // element head BYTE tag 0
 		out = append(out, c04Count(n)...)  // count at tag 0
 		out = append(out, vapi.Bytes("xb", n)...)
 	case tyList:
-		n := vapi.Len("xllen", 2)
+		n := vapi.Len("xllen", c04MaxLen)
 		out = append(out, c04Count(n)...)
 		for i := 0; i < n; i++ {
 			out = append(out, c04Field(0, depth-1)...)
@@ -57,7 +60,7 @@ func c04Field(tag int, depth int) []byte {
 			out = append(out, c04Field(1, depth-1)...)
 		}
 	case tyBegin:
-		n := vapi.Len("xsn", 2)
+		n := vapi.Len("xsn", c04MaxLen)
 		t := 0
 		for i := 0; i < n; i++ {
 			out = append(out, c04Field(t, depth-1)...)
@@ -94,7 +97,7 @@ func c04SkipExact(depth int) {
 }
 
 func VerifC04SkipExact()     { c04SkipExact(1); vapi.Reach("c04-skip-exact") }
-func VerifC04SkipExactDeep() { c04SkipExact(2); vapi.Reach("c04-skip-exact-deep") }
+func VerifC04SkipExactDeep() { c04MaxLen = 1; c04SkipExact(2); vapi.Reach("c04-skip-exact-deep") }
 
 // VerifC04Insensitive: extra unknown fields between / after the known members of Opts change
 // neither the decoded values nor the success of decoding.
